@@ -22,11 +22,18 @@ values without `;` (the quantifier of C10: "names and values free of ';' and ':'
   action per node pair (`updateAttrs_mentions`: the four phases work on disjoint classes of names, a rename retires
   the names it uses).
 
+* `C10_no_unmarked_change` / `C10_no_spurious_mark` ("Together with C09 this means no change is unmarked and no mark
+  is spurious"): if the tree `finalize` returns carries no markup (`Fin.MarkupFree`: no wrapper element, no `diff:`
+  attribute) the two documents are equal as values - on a markup-free tree accepting and rejecting read the same
+  (`acc_rej_markupFree`), accepting gives the right document (C09) and rejecting the left one with its attributes;
+  and for equal documents (hypotheses of C03) the script is empty and the formatter returns the left document itself.
+
 Not covered: text tags, `use_replace`, `WS_TEXT` on texts that are not whitespace-normal (as for the other C10
 theorems).  Trust: the model of the handlers is tied to the code by units U9 / U9e, `rejFTA` to the per-run oracle's
 reject projection by unit U9p.
 -/
 import XmlDiffModel.Proofs.Pipeline
+import XmlDiffModel.Proofs.NoUnmarked
 
 namespace XmlDiffModel
 open XmlDiffModel.Acc XmlDiffModel.Rej XmlDiffModel.Along XmlDiffModel.Fin XmlDiffModel.Undo
@@ -107,6 +114,52 @@ theorem C10_pipeline_attrs (bis : Dmp.Bisect) (sim : Sim) (qn : QName) (cfg : Cf
       bare (rejFTA out) = setTailT none (bare L) ∧
       ∀ i p, Tree.payOf (rejFTA out) i = some p → ∃ q, Tree.payOf L i = some q ∧ AttrBack p.attrs q.attrs :=
   pipeline_attrs bis sim qn cfg L R fresh ft w hF hclean hshort htag hkL hL hRn hdisj hfL hfR hR hLa hRa
+
+/-- **No change is unmarked** (pipeline model): if the output carries no markup, the two documents are equal as
+values (kind, tag, text, tail of every node, attributes outside the ignored ones; root tails aside). -/
+theorem C10_no_unmarked_change (bis : Dmp.Bisect) (sim : Sim) (qn : QName) (cfg : Cfg) (L R : Tree) (fresh : Nat)
+    (ft : List Str) (w : Bool) (hF : 0 < cfg.F)
+    (hclean : CleanT L) (hshort : Names.AllP (ShortP w) L) (htag : Names.AllP TagOK L) (hkL : L.payload.kind = .elem)
+    (hL : (Tree.ids L).Nodup) (hRn : (Tree.ids R).Nodup) (hdisj : ∀ i ∈ Tree.ids L, i ∉ Tree.ids R)
+    (hfL : ∀ i ∈ Tree.ids L, i < fresh) (hfR : ∀ i ∈ Tree.ids R, i < fresh)
+    (hR : ∀ x ∈ Tree.bfs R, (keys x.payload.attrs).Nodup ∧ XClean (fun k => isDiffKey k = false) x ∧
+      ShortP w x.payload ∧ TagOK x.payload)
+    (hLa : Names.AllP (AttrFit.PairsP nameOKb valOKb) L)
+    (hRa : ∀ x ∈ Tree.bfs R, AttrFit.PairsOK nameOKb valOKb x.payload.attrs) :
+    ∃ script final s' out after,
+      scriptGen qn cfg L R (matchNodes cfg sim L R) fresh = .ok (script, final) ∧
+      runFmtE w bis qn (fstate0 L fresh ft [] w) script = .ok s' ∧
+      (∃ N, ∀ f, N ≤ f → undoElement f s'.ph diffElemList s'.tree = .ok (out, after)) ∧
+      (MarkupFree out → Chw.docEq cfg.ignored (setTailT none L) (setTailT none R)) := by
+  have hroot : L.payload.kind = R.payload.kind := by
+    have hr : R ∈ Tree.bfs R := by
+      obtain ⟨x, hx, hid⟩ := Tree.bfs_covers R R.id (by cases R; simp [Tree.ids, Tree.id])
+      have h1 := Tree.bfs_sub R hRn x hx
+      rw [hid, Tree.find_self] at h1
+      injection h1 with h1
+      exact h1 ▸ hx
+    rw [hkL, (hR R hr).2.1.1]
+  have hA : ∀ x ∈ Tree.bfs R, (keys x.payload.attrs).Nodup := fun x hx => (hR x hx).1
+  have hC : ∀ x ∈ Tree.bfs R, x.payload.kind = .comment → x.payload.tag = [] := fun x hx hk => by
+    rw [(hR x hx).2.1.1] at hk; cases hk
+  have hM := matchNodes_good cfg sim L R hF hL hRn hroot
+  obtain ⟨script, final, nx, hs, _, hd⟩ := C01_roundtrip qn cfg L R fresh sim hF hL hRn hdisj hfL hfR hroot hA hC
+  obtain ⟨s', out, after, h1, h2, h3⟩ := no_unmarked_change bis qn cfg L R _ fresh script final ft w hclean hshort
+    htag hL hRn hdisj hfL hfR hM hR hLa hRa hs hd
+  exact ⟨script, final, s', out, after, hs, h1, h2, h3⟩
+
+/-- **No mark is spurious** (pipeline model): for documents that are equal as values (oracle hypotheses of C03) the
+script is empty, the formatter accepts it, and `finalize` returns the left document itself, which carries no markup. -/
+theorem C10_no_spurious_mark (bis : Dmp.Bisect) (sim : Sim) (qn : QName) (cfg : Cfg) (L R : Tree) (fresh : Nat)
+    (ft : List Str) (w : Bool) (hF0 : 0 < cfg.F) (hF1 : cfg.F ≤ Score.one) (hL : L.WF) (hR : R.WF)
+    (hclean : CleanT L) (htag : Names.AllP TagOK L) (heq : Chw.docEq cfg.ignored L R)
+    (hs : EqM.SimOK sim (postNodes L).dropLast (postNodes R).dropLast)
+    (hf : cfg.fastMatch = true → EqM.FastOK cfg sim (postNodes L).dropLast (postNodes R).dropLast) :
+    scriptGen qn cfg L R (matchNodes cfg sim L R) fresh = .ok ([], L) ∧
+      runFmtE w bis qn (fstate0 L fresh ft [] w) [] = .ok (fstate0 L fresh ft [] w) ∧
+      (∃ N, ∀ f, N ≤ f → undoElement f (fstate0 L fresh ft [] w).ph diffElemList L = .ok (L, [])) ∧ MarkupFree L :=
+  ⟨C03_equal_documents_empty_script qn cfg L R fresh sim hF0 hF1 hL hR heq hs hf,
+    no_spurious_mark bis qn L fresh ft w hclean htag⟩
 
 private def sa (l : List (String × String)) : Attrs := l.map (fun kv => (kv.1.toList, kv.2.toList))
 private def dn' (s : String) : String := String.ofList (dname s)
